@@ -1,0 +1,80 @@
+//go:build verif
+// +build verif
+
+package gemmill
+
+import (
+	"github.com/spf13/viper"
+
+	"github.com/dappledger/AnnChain/gemmill/archive"
+	"github.com/dappledger/AnnChain/gemmill/blockchain"
+	dbm "github.com/dappledger/AnnChain/gemmill/modules/go-db"
+	"github.com/dappledger/AnnChain/gemmill/p2p"
+	"github.com/dappledger/AnnChain/gemmill/plugin"
+	"github.com/dappledger/AnnChain/gemmill/refuse_list"
+	"github.com/dappledger/AnnChain/gemmill/state"
+	"github.com/dappledger/AnnChain/gemmill/types"
+)
+
+// Construction of an Angine from in-memory parts for the model-based checks in /verif
+// (C13 fast sync, C14 validator-set changes; build tag "verif").  NewAngine obtains these parts
+// from files, a TCP listener and on-disk databases and then calls
+// buildState -> assembleStateMachine -> InitPlugins; VerifAsmNew takes them from the caller and
+// calls exactly the same buildState, so the block verifier / executer closures, the reactors and
+// the plugin wiring are the production ones.  Nothing here is compiled without the tag.
+
+// VerifAsmParts is what NewAngine reads from its environment.
+type VerifAsmParts struct {
+	Conf          *viper.Viper
+	Genesis       *types.GenesisDoc
+	PrivValidator *types.PrivValidator
+	Switch        *p2p.Switch       // NodeInfo and NodePrivKey already set
+	DBs           map[string]dbm.DB // "state", "blockstore", "archive", "votechannel"
+	RefuseList    *refuse_list.RefuseList
+	Archive       *archive.Archive
+}
+
+// VerifAsmNew mirrors the tail of NewAngine.
+func VerifAsmNew(app types.Application, p *VerifAsmParts) (*Angine, error) {
+	tune := &Tunes{Conf: p.Conf, Runtime: p.Conf.GetString("runtime")}
+	eventSwitch := types.NewEventSwitch()
+	ang := &Angine{
+		Tune: tune,
+
+		dbs:         p.DBs,
+		tune:        tune,
+		dataArchive: p.Archive,
+		conf:        p.Conf,
+
+		p2pSwitch:     p.Switch,
+		eventSwitch:   &eventSwitch,
+		refuseList:    p.RefuseList,
+		privValidator: p.PrivValidator,
+		genesis:       p.Genesis,
+	}
+	ang.app = app
+	err := ang.buildState(p.Genesis)
+	return ang, err
+}
+
+// VerifAsmState returns the state the angine currently executes blocks on.
+func (ang *Angine) VerifAsmState() *state.State { return ang.stateMachine }
+
+// VerifAsmEvents returns the event switch that hooks and reactors are attached to.
+func (ang *Angine) VerifAsmEvents() types.EventSwitch { return *ang.eventSwitch }
+
+// VerifAsmStore returns the block store.
+func (ang *Angine) VerifAsmStore() *blockchain.BlockStore { return ang.blockstore }
+
+// VerifAsmSwitch returns the p2p switch.
+func (ang *Angine) VerifAsmSwitch() *p2p.Switch { return ang.p2pSwitch }
+
+// VerifAsmAdminOp returns the adminOp plugin instance, if configured.
+func (ang *Angine) VerifAsmAdminOp() *plugin.AdminOp {
+	for _, p := range ang.plugins {
+		if ip, ok := p.(*plugin.AdminOp); ok {
+			return ip
+		}
+	}
+	return nil
+}
